@@ -768,7 +768,13 @@ impl Monitor for Prec {
             }
         }
         // attribution: least-squares gain of the f32 stream against the f64 stream, and shape residual
-        if syy > 1e-3 && cr.viols.is_empty() {
+        // the gain estimate is only meaningful when the compared segment carries real signal energy
+        // (start-up segments of the block-wise FFT types are nearly silent: 94 eps32 "gain error" on an
+        // rms of 1e-3 was a false alarm in a thorough run); require rms >= 5 % of the peak and 1024 frames
+        let n_cmp = all64.len().max(1) as f64;
+        let peak_all = all64.iter().fold(1.0f64, |m, v| m.max(v.abs()));
+        let energetic = all64.len() >= 1024 && (all64.iter().map(|v| v * v).sum::<f64>() / n_cmp).sqrt() >= 0.05 * peak_all;
+        if syy > 1e-3 && energetic && cr.viols.is_empty() {
             let g = sxy / syy;
             let gerr = (g - 1.0).abs() / eps;
             let fam = if cfg.kind.is_sinc() { "sinc" } else if cfg.kind.is_fast() { "fast" } else { "fft" };
@@ -777,7 +783,7 @@ impl Monitor for Prec {
             let peak = all64.iter().fold(1.0f64, |m, v| m.max(v.abs()));
             let shape = all32.iter().zip(all64.iter()).fold(0.0f64, |m, (x, y)| m.max((x - g * y).abs())) / (eps * peak);
             st.max("worst_shape_residual_eps32", shape);
-            if gerr > gain_bound && all64.len() > 256 {
+            if gerr > gain_bound {
                 cr.viols.push(Viol::new("C17", "gain_differs", format!("least-squares gain of the f32 output against the f64 output is 1{:+.3e} = {:.0} eps32 (> {:.0})", g - 1.0, gerr, gain_bound)));
             }
         }
